@@ -1078,6 +1078,12 @@ func (e *executor) executeGroupBy(ctx context.Context, index string, c *pql.Call
 		return nil, err
 	} else if hasLimit {
 		limit = int(lim)
+		// the first `offset` groups are dropped after reducing: keep enough groups for the page
+		if off, hasOffset, err := c.UintArg("offset"); err != nil {
+			return nil, err
+		} else if hasOffset && limit < int(^uint(0)>>1)-int(off) {
+			limit += int(off)
+		}
 	}
 	filter, _, err := c.CallArg("filter")
 	if err != nil {
@@ -1140,6 +1146,8 @@ func (e *executor) executeGroupBy(ctx context.Context, index string, c *pql.Call
 	} else if hasOffset {
 		if int(offset) < len(results) {
 			results = results[offset:]
+		} else {
+			results = results[:0]
 		}
 	}
 	// Apply limit.
@@ -1259,6 +1267,11 @@ func (e *executor) executeGroupByShard(ctx context.Context, index string, c *pql
 		return nil, err
 	} else if hasLimit {
 		limit = int(lim)
+		if off, hasOffset, err := c.UintArg("offset"); err != nil {
+			return nil, err
+		} else if hasOffset && limit < int(^uint(0)>>1)-int(off) {
+			limit += int(off)
+		}
 	}
 
 	results := make([]GroupCount, 0)
